@@ -111,6 +111,12 @@ def remove(cfg, crate, rep):
     if len(rt) == 1:
         t, k, p, n, c = rt[0]
         ok_c = not F.counterexamples(c, present, "equiv")
+        if not ok_c:
+            # early-return style: `if entries.remove(k).is_none() { return false }` then an unconditional retain
+            act_ret = [cnd for cnd, val in []]
+            rets = [(cnd, val) for cnd, val in (core(out["value"]).alts if hasattr(core(out["value"]), "alts") else [])]
+            absent_returns = [cnd for cnd, val in rets if I.concrete(val) is False]
+            ok_c = c is True and len(absent_returns) == 1 and not F.counterexamples(absent_returns[0], F.Not(present), "equiv")
         cl = core(p[0])
         keep = None
         if isinstance(cl, ClosureV) and k.endswith("Vec::retain"):
@@ -123,7 +129,7 @@ def remove(cfg, crate, rep):
     else:
         rep.fail("C20.remove", key + "|order-loses-exactly-the-key", "no single update of `order`", found=len(rt))
     v = out["value"]
-    f = I.to_formula(v) if isinstance(core(v), (BoolV,)) or isinstance(v, BoolV) else None
+    f = I.to_formula(v)
     rep.ob("C20.remove", key + "|returns-presence", f is not None and not F.counterexamples(f, present, "equiv"), "remove() reports whether something was removed", found=core(v).r())
 
 
